@@ -1,7 +1,7 @@
 SPECIFICATION Spec
 CONSTANTS SIntW = 64
           WordW = 64
-          Stride = 3
+          Stride = 5
           Stride3 = 2
           Offset = 0
           OpFilter = {}
